@@ -57,6 +57,10 @@
 //	    "enum", "decimal") > precision ("decimal") > JSON kind of the example
 //	    (integer / float / string / boolean / null / object / array).
 //
+// Besides the plain cases (one root, fresh type objects, one GetAST) the command runs HISTORY cases — programs over
+// several schema objects in which GetAST is asked of every object (root, added type objects, shared type objects)
+// at any moment of the program: see hist.go (H1–H6).
+//
 // Surface-syntax restrictions of the generator (scanner / loader rules of the unchanged tree, not AST matters):
 // a node that carries an annotation stands alone on its line (an object's `{` and its first property never
 // share a line); a bare rule name may be followed by spaces but not by a tab; a text that follows `//` or `/*`
@@ -218,7 +222,12 @@ func Run(args []string) {
 		"notes and enum item comments drawn from a pool with every scanner-relevant character (# ## // /* */ - @ | quotes brackets , : non-ASCII), "+
 		"one in three opening / closing with a non-ASCII white-space character (U+00A0, U+3000, U+2000-200A, U+0085, U+FEFF, VT, FF …) or punctuation; the same inside strings and keys; "+
 		"item comments after / before the comma / on their own line, also in or rule-sets; random layout, // and /* */ annotations, LF/CRLF) printed as JSight; "+
-		"expected AST computed from the IR; nontrivial = the root has children, rules or a note")
+		"expected AST computed from the IR; nontrivial = the root has children, rules or a note. "+
+		"History cases (hist.go H1-H6): programs over several schema objects with generated texts - 1-2 parents (generated root / root referencing the type objects), "+
+		"1-3 type objects @u1.. (own type table none / filled before / filled after being handed to a parent; nested in each other; in one or several parents), the fixed type objects shared or per receiver - "+
+		"all AddType calls in random order interleaved with GetAST / Check / UsedUserTypes / Len on the type objects, then Check / GetAST / Validate / Example / UsedUserTypes / Len on parents and type objects, "+
+		"then GetAST of EVERY object; every GetAST answer of every object must be the AST of its own text (an error only from an object compiled without the types its text uses); "+
+		"a failing program is reduced call by call; nontrivial = at least one type object answered GetAST")
 	n := vh.Pick(12000, 1500000)
 	base := vh.Seed()*1000003 + salt
 	const batch = 20000
@@ -271,5 +280,61 @@ func Run(args []string) {
 			}
 		}
 	}
+	runHistories(rep, stop)
 	rep.Finish()
+}
+
+// runHistories: the history cases of hist.go (H1–H6), evaluated after the plain cases.
+func runHistories(rep *vh.Report, stop bool) {
+	n := vh.Pick(6000, 200000)
+	base := (vh.Seed()*1000003+histSalt)*7919 + 1
+	const batch = 20000
+	for start := 0; start < n && !stop; start += batch {
+		end := start + batch
+		if end > n {
+			end = n
+		}
+		results := make([]histResult, end-start)
+		var wg sync.WaitGroup
+		next := make(chan int, 1024)
+		for w := 0; w < runtime.NumCPU(); w++ {
+			wg.Add(1)
+			go func() {
+				defer wg.Done()
+				for i := range next {
+					results[i-start] = oneHist(base + int64(i))
+				}
+			}()
+		}
+		for i := start; i < end; i++ {
+			next <- i
+		}
+		close(next)
+		wg.Wait()
+		for j, res := range results {
+			rep.Case(res.key, res.nontriv)
+			rep.Stat("hist_cases")
+			for k, v := range res.h.stats {
+				rep.Stats[k] += v
+			}
+			if res.timeout {
+				rep.AddDiff(vh.Diff{Component: "C16-ast-history", Input: res.input, Impl: "TIMEOUT", Model: "every call returns"})
+				stop = true
+				break
+			}
+			if res.diff != "" {
+				rep.Stat("hist_diff")
+				impl, model := res.impl, res.model
+				if len(impl) > 1500 {
+					impl = impl[:1500] + "…"
+				}
+				if len(model) > 1500 {
+					model = model[:1500] + "…"
+				}
+				rep.AddDiff(vh.Diff{Component: "C16-ast-history", Input: res.input, Impl: impl, Model: model, Note: fmt.Sprintf("history case %d: %s", start+j, res.diff)})
+			} else {
+				rep.Stat("hist_all_asts_equal")
+			}
+		}
+	}
 }
